@@ -43,6 +43,27 @@ func EventAt(fn *ssa.Function, must, may func(ssa.Instruction) bool, probe ssa.I
 	return at[true], at[false], ok
 }
 
+// DirtyReturns: with E set by `set` instructions and cleared by `clear` instructions, the returns of fn
+// that can be reached with E still set (same relational fixpoint; flags carried through phis prune the
+// paths on which nothing was set).
+func DirtyReturns(fn *ssa.Function, set, clear func(ssa.Instruction) bool) ([]*ssa.Return, bool) {
+	bcClear = clear
+	defer func() { bcClear = nil }()
+	var out []*ssa.Return
+	for _, ret := range Returns(fn) {
+		_, at, ok := boolCorrEx(fn, -1, set, nil, ret)
+		if !ok {
+			return nil, false
+		}
+		if at[true] {
+			out = append(out, ret)
+		}
+	}
+	return out, true
+}
+
+var bcClear func(ssa.Instruction) bool
+
 func boolCorrEx(fn *ssa.Function, idx int, must, may func(ssa.Instruction) bool, probe ssa.Instruction) (map[bcPair]bool, map[bool]bool, bool) {
 	// tracked values
 	tracked := map[ssa.Value]int{}
@@ -156,7 +177,10 @@ func boolCorrEx(fn *ssa.Function, idx int, must, may func(ssa.Instruction) bool,
 			next := map[bcState]bool{}
 			for s := range cur {
 				ss := []bcState{s}
-				if must != nil && must(ins) {
+				if bcClear != nil && bcClear(ins) {
+					s.e = false
+					ss = []bcState{s}
+				} else if must != nil && must(ins) {
 					s.e = true
 					ss = []bcState{s}
 				} else if may != nil && may(ins) {
